@@ -54,8 +54,8 @@ func TestCheck(t *testing.T) {
 			_ = json.Unmarshal(c.Replay, &probe)
 			_, isDecodeReplay = probe["entry"]
 			if !isDecodeReplay {
-				// HOOK(partStream): replay of a live-connection case goes here.
-				c.HarnessError("replay: not a partDecode case and partStream is not built yet")
+				// replay of a live-connection (stream) case
+				partStream(c, t)
 				return
 			}
 		}
@@ -67,10 +67,9 @@ func TestCheck(t *testing.T) {
 		if isDecodeReplay {
 			return
 		}
-		// HOOK(partStream): part (b) — segmentation and T8 on a live connection — is added
-		// here by its own file, e.g.
-		//     partStream(c)
-		// It has its own c.Next() sequence (partDecode's runs inside the worker process).
+		// part (b) — segmentation and T8 on a live connection (stream_test.go). It has its own
+		// c.Next() sequence (partDecode's runs inside the worker process).
+		partStream(c, t)
 	})
 }
 
